@@ -132,6 +132,12 @@ def opt_prepare():
         out.append('P opt_prep_%s opt | PR:c1:1 CV:c1 B:c1 U:c1 | %s %s' % (b, sec(b, 4), f))
     out.append('P opt_prep_move opt | X:x1:1 U:x1 | PR:c2:1 MV:c2:c3 B:c2 B:c3 CV:c3 D:c4 MA:c3:c4 B:c4 CV:c4 U:c4 U:c3 U:c2 %s' % f)
     out.append('P opt_prep_wr opt | X:x1:1 U:x1 X:x2:1 U:x2 | PR:c3:1 CV:c3 U:c3 %s' % f)
+    # a composite guard (owning when PrepareRead had to fall back to the shared lock) overwritten by the guard of another
+    # lock, and the other way round: the grant that is given up is the one on the OLD lock
+    f2 = '|| GV:o10:1 X:x11:1 U:x11 GV:o10:1 X:x12:2 U:x12'
+    out.append('P opt_prep_assign_over opt | X:x1:1 U:x1 | PR:c2:1 PR:c3:2 MA:c3:c2 B:c2 B:c3 CV:c2 U:c2 U:c3 %s' % f2)
+    out.append('P opt_prep_assign_over2 opt | X:x1:1 U:x1 | PR:c2:1 PR:c3:2 MA:c3:c2 B:c2 B:c3 CV:c2 U:c2 U:c3 | X:x4:2 U:x4 %s' % f2)
+    out.append('P opt_prep_assign_back opt | X:x1:2 U:x1 | PR:c2:1 PR:c3:2 MA:c2:c3 B:c2 B:c3 CV:c3 U:c3 U:c2 %s' % f2)
     out.append('P opt_prep_3 opt | X:x1:1 U:x1 | PR:c2:1 CV:c2 U:c2 | S:s3:1 U:s3 %s' % f)
     return out
 
